@@ -127,7 +127,15 @@ class VanillaSimulaQronExecutioner(Executor):
             subroutine_id=subroutine_id,
             instr=instr,
         )
-        yield self.cmd_new(physical_address=physical_address)
+        try:
+            yield self.cmd_new(physical_address=physical_address)
+        except Exception:
+            # No qubit was created (e.g. the node is full): undo the allocation made above, otherwise the
+            # virtual address stays mapped to a qubit that does not exist and stopping the application fails.
+            unit_module = self._get_unit_module(subroutine_id)
+            unit_module[unit_module.index(physical_address)] = None
+            self._used_physical_qubit_addresses.remove(physical_address)
+            raise
 
     @inlineCallbacks
     def cmd_new(self, physical_address):
